@@ -53,7 +53,7 @@ func collectSets(d *hx.Doc, s *hx.Schema, op *hx.Op) []setRef {
 	return out
 }
 
-var defectKinds = []string{"unknown-field", "undeclared-arg", "omitted-required-arg", "unknown-directive", "misplaced-directive", "undeclared-directive-arg", "undefined-condition-inline", "undefined-condition-fragment"}
+var defectKinds = []string{"unknown-field", "undeclared-arg", "omitted-required-arg", "unknown-directive", "misplaced-directive", "undeclared-directive-arg", "omitted-required-directive-arg", "undefined-condition-inline", "undefined-condition-fragment"}
 
 // Defect describes the injected defect (kept in Case.Note as text, and here for the oracle).
 type Defect struct {
@@ -203,7 +203,8 @@ func inject(t *rapid.T, c *Case, kind string) (df Defect, ok bool) {
 				sel.Args = append(sel.Args, hx.KV{Key: a.Name, V: g.genArgLiteral(a.Type, "da"+a.Name, false)})
 			}
 		}
-		bad := hx.KV{Key: "zzz", V: hx.I64(1)}
+		// (whatever is written for it - a null too - the argument is one the field does not declare)
+		bad := hx.KV{Key: "zzz", V: rapid.SampledFrom([]hx.Val{hx.I64(1), hx.Nil(), hx.Str("x"), hx.Bool(false), hx.List(), hx.Nil()}).Draw(t, "undeclaredArgValue")}
 		pos := rapid.IntRange(0, len(sel.Args)).Draw(t, "argPos")
 		args := append([]hx.KV{}, sel.Args[:pos]...)
 		args = append(args, bad)
@@ -362,6 +363,41 @@ func inject(t *rapid.T, c *Case, kind string) (df Defect, ok bool) {
 			insertAt(t, sr.sels, &hx.Sel{Kind: "field", Alias: "dfct", Name: "__typename", Dirs: []hx.DirUse{du}})
 		}
 		df.Key, df.Con, df.Depth, df.Rejected = "dfct", sr.con, sr.depth, true
+	case "omitted-required-directive-arg":
+		// a declared directive at a legal place whose required argument is not written at all
+		sr, found := pickSet(nil)
+		if !found {
+			return df, false
+		}
+		which := rapid.SampledFrom([]string{"include", "skip", "need"}).Draw(t, "ordaDir")
+		df.Name = map[string]string{"include": "if", "skip": "if", "need": "level"}[which]
+		du := hx.DirUse{Name: which}
+		if which == "need" && rapid.Bool().Draw(t, "ordaGiveOptional") {
+			du.Args = []hx.KV{{Key: "note", V: hx.Str("n")}}
+		}
+		fds := fieldsWith(sr.con, func(*hx.Field) bool { return true })
+		where := rapid.IntRange(0, 2).Draw(t, "dirWhere")
+		switch {
+		case where == 0 && len(fds) > 0:
+			fd := rapid.SampledFrom(fds).Draw(t, "fd")
+			sel := mkFieldSel(fd)
+			for _, a := range fd.Args {
+				if a.Type.NonNull {
+					g := &docGen{t: t, s: s, vars: map[string]*hx.VarDef{}, vals: map[string]hx.Val{}}
+					sel.Args = append(sel.Args, hx.KV{Key: a.Name, V: g.genArgLiteral(a.Type, "da"+a.Name, false)})
+				}
+			}
+			sel.Dirs = []hx.DirUse{du}
+			insertAt(t, sr.sels, sel)
+		case where == 1:
+			insertAt(t, sr.sels, &hx.Sel{Kind: "inline", Dirs: []hx.DirUse{du}, Sels: []*hx.Sel{{Kind: "field", Alias: "dfct", Name: "__typename"}}})
+		default:
+			if s.KindOf(sr.con) == hx.KUnion {
+				return df, false
+			}
+			insertAt(t, sr.sels, &hx.Sel{Kind: "field", Alias: "dfct", Name: "__typename", Dirs: []hx.DirUse{du}})
+		}
+		df.Key, df.Con, df.Depth, df.Rejected = "dfct", sr.con, sr.depth, true
 	case "undefined-condition-inline":
 		sr, found := pickSet(nil)
 		if !found {
@@ -418,6 +454,7 @@ func genCaseC10(t *rapid.T) *c10Case {
 	s := GenSchema(t, p)
 	s.Dirs = append(s.Dirs, &hx.DirDef{Name: "onquery", On: []string{"QUERY"}})
 	s.Dirs = append(s.Dirs, &hx.DirDef{Name: "onfield", On: []string{"FIELD"}, Args: []*hx.Arg{{Name: "level", Type: hx.Named("Int")}}})
+	s.Dirs = append(s.Dirs, &hx.DirDef{Name: "need", On: []string{"FIELD", "INLINE_FRAGMENT", "FRAGMENT_SPREAD"}, Args: []*hx.Arg{{Name: "level", Type: hx.Named("Int").NN()}, {Name: "note", Type: hx.Named("String")}}})
 	if p.Args {
 		// make sure fields with a required argument exist (needed by the omitted-argument defect)
 		for _, td := range s.Types {
@@ -445,7 +482,7 @@ func genCaseC10(t *rapid.T) *c10Case {
 	roundTrip(base, &cp)
 	kinds := defectKinds
 	if strategy == "X" {
-		kinds = []string{"unknown-field", "unknown-directive", "misplaced-directive", "undeclared-directive-arg", "undefined-condition-inline", "undefined-condition-fragment"}
+		kinds = []string{"unknown-field", "unknown-directive", "misplaced-directive", "undeclared-directive-arg", "omitted-required-directive-arg", "undefined-condition-inline", "undefined-condition-fragment"}
 	}
 	perm := rapid.Permutation(kinds).Draw(t, "kindOrder")
 	for _, k := range perm {
@@ -553,6 +590,10 @@ func checkC10(cc *c10Case) (ds []hx.Discrepancy, exp *hx.Expect, res map[string]
 		case "undeclared-directive-arg":
 			if call.Key == "dfct" {
 				add("resolver-invoked", "", "resolver invoked for the selection whose directive has the undeclared argument %q: %+v%s", df.Name, call, ctx())
+			}
+		case "omitted-required-directive-arg":
+			if call.Key == "dfct" {
+				add("resolver-invoked", "", "resolver invoked for the selection whose directive lacks its required argument %q: %+v%s", df.Name, call, ctx())
 			}
 		case "omitted-required-arg":
 			if call.Key == "dfct" {
